@@ -170,7 +170,7 @@ Definition rt_hsl (c : rgba) : bool := rgba_close (rgba_of_hsla (hsla_of_rgba c)
 Definition rt_hwb (c : rgba) : bool := rgba_close (rgba_of_hwba (hwba_of_rgba c)) c.
 Definition entry_rt (e : string * Z) : bool :=
   match from_name (fst e) with
-  | Some c => k6_rgba c || (rt_hsl c && rt_hwb c)
+  | Some c => rt_hsl c && rt_hwb c
   | None => false
   end.
 Lemma named_rt_sweep : forallb entry_rt color_table = true.
@@ -183,20 +183,11 @@ Definition gray_rt (g : Z) : bool :=
 Lemma gray_rt_sweep : forallb gray_rt grays = true.
 Proof. vm_compute. reflexivity. Qed.
 
-(* F33 *)
-Lemma refuted_yellow :
+(* F33 (fixed by e465284): yellow has lightness 50% and survives the round trip *)
+Lemma yellow_fixed :
   let c := rgba_from_bytes 255 255 0 in
-  k6_rgba c = true /\ feq (h_lum (hsla_of_rgba c)) f_zero = true /\ rt_hsl c = false.
+  feq (h_lum (hsla_of_rgba c)) f_half = true /\ feq (h_hue (hsla_of_rgba c)) f60 = true /\ rt_hsl c = true.
 Proof. vm_compute. auto. Qed.
-
-(* every colour of the table with red = green > blue is converted as if it were grey *)
-Definition entry_k6 (e : string * Z) : bool :=
-  match from_name (fst e) with
-  | Some c => negb (k6_rgba c) || feq (h_sat (hsla_of_rgba c)) f_zero
-  | None => false
-  end.
-Lemma k6_sweep : forallb entry_k6 color_table = true.
-Proof. vm_compute. reflexivity. Qed.
 
 (* ---------- equal channels compare equal (Rgba ordering ignores the source notation) ---------- *)
 Lemma fcmp_refl a : f_is_nan a = false -> fcmp a a = Some Eq.
